@@ -3,6 +3,9 @@ import Hgxv.Proofs.C18RW
 import Hgxv.Proofs.C18Cont
 import Hgxv.Proofs.C18Conn
 import Hgxv.Proofs.C18Hist
+import Hgxv.Proofs.C18Ext
+import Hgxv.Proofs.C18Cont2
+import Hgxv.Proofs.C18Cont3
 import Mathlib.Tactic.NormNum
 /-! # C18 — random walks are stochastic and stationary; contagion exact when deterministic
 
@@ -387,3 +390,431 @@ example : [[0, 1, 2], [2, 3]].Perm [[2, 3], [0, 1, 2]] := by decide
 example : kEntry [[2, 3], [0, 1, 2]] 4 2 3 = 1 / 5 := by
   rw [← (C18_listing_irrelevant exE [[2, 3], [0, 1, 2]] (by decide)).2.1]
   rw [C18_entry exE 4 exValid]; simp [shared, deg2, exE]
+
+/-! # Extension round
+
+More of the two anchored files inside the model (`K ** t`, the `np.isclose` assertion of `random_walk_density`, the
+inverse-cdf sampler behind `np.random.choice`, so that a sampled walk is a function of its uniform draws) and the
+statements that were only compared before. `NoIsolated`-style hypotheses are written out: `∃ e ∈ es, i ∈ e ∧ 2 ≤ e.length`. -/
+
+/-! ## rows of the transition matrix without the connectivity assertion -/
+
+/-- a row of `T` is zero (so `T / T.sum(axis=1)` is `0/0 = nan` in that row) exactly for a node that lies in no
+hyperedge with at least two members -/
+theorem C18_zero_row_iff (es : List Edge) (N : Nat) (hv : Valid es N) (i : Nat) :
+    rowSum es N i = 0 ↔ ¬ ∃ e ∈ es, i ∈ e ∧ 2 ≤ e.length := by
+  rw [rowSum_eq_deg2 es N hv i]
+  constructor
+  · intro h hex; have := (deg2_pos_iff es i).mpr hex; omega
+  · intro h; exact Nat.eq_zero_of_not_pos (fun hp => h ((deg2_pos_iff es i).mp hp))
+
+/-- row-stochasticity is a fact about every non-isolated node of EVERY hypergraph (connected or not): the row sums
+to one and its entries lie in `[0, 1]` -/
+theorem C18_row_stochastic_general (es : List Edge) (N : Nat) (hv : Valid es N) (i : Nat)
+    (h : ∃ e ∈ es, i ∈ e ∧ 2 ≤ e.length) :
+    sumTo N (kEntry es N i) = 1 ∧ ∀ j, j < N → 0 ≤ kEntry es N i j ∧ kEntry es N i j ≤ 1 := by
+  have hr : 0 < rowSum es N i := by
+    rw [rowSum_eq_deg2 es N hv i]; exact (deg2_pos_iff es i).mpr h
+  refine ⟨?_, fun j hj => ⟨kEntry_nonneg es N i j, kEntry_le_one es N i j hj⟩⟩
+  rw [sumTo_eq]; exact kRow_sum es N i hr
+
+/-- WITH an isolated node (`N ≥ 2`): the connectivity assertion fails, so every routine of `randwalk.py` raises
+instead of dividing `0/0` -/
+theorem C18_isolated_node (es : List Edge) (N : Nat) (hv : Valid es N) (hN : 2 ≤ N) (i : Nat) (hi : i < N)
+    (hiso : ¬ ∃ e ∈ es, i ∈ e ∧ 2 ≤ e.length) :
+    connectedB es N = false ∧ transitionMatrix es N = none ∧ stationary es N = none
+    ∧ ∀ s t, randomWalkDensity es N s t = none := by
+  have hc : connectedB es N = false := by
+    cases hcb : connectedB es N with
+    | false => rfl
+    | true =>
+      have := rowSum_pos es N hv hcb hN i hi
+      have hz := (C18_zero_row_iff es N hv i).mpr hiso
+      omega
+  refine ⟨hc, by simp [transitionMatrix, hc], by simp [stationary, hc], fun s t => ?_⟩
+  unfold randomWalkDensity; simp [hc]
+
+/-- the one case where a zero row passes the assertion: a single node is "connected" and its `1 × 1` matrix is `0/0` -/
+theorem C18_single_node (es : List Edge) (hv : Valid es 1) :
+    connectedB es 1 = true ∧ rowSum es 1 0 = 0 ∧ rowsPositive es 1 = false := by
+  have hz : rowSum es 1 0 = 0 := by
+    simp [rowSum, List.range_succ, tEntry_diag es 1 hv 0]
+  refine ⟨by simp [connectedB, growN, grow, List.range_succ], hz, ?_⟩
+  simp [rowsPositive, List.range_succ, hz]
+
+/-! ## the stationary vector: reversibility and uniqueness among fixed probability vectors -/
+
+/-- detailed balance `π_i K[i][j] = π_j K[j][i]` (the walk is reversible; `T` is symmetric) -/
+theorem C18_detailed_balance (es : List Edge) (N : Nat) (hv : Valid es N) (hc : connectedB es N = true) (hN : 2 ≤ N)
+    (i j : Nat) (hi : i < N) (hj : j < N) :
+    piEntry es N i * kEntry es N i j = piEntry es N j * kEntry es N j i ∧ tEntry es i j = tEntry es j i :=
+  ⟨detailed_balance es N i j (rowSum_pos es N hv hc hN i hi) (rowSum_pos es N hv hc hN j hj), tEntry_symm es i j⟩
+
+/-- every vector with `x K = x` and `Σ x = 1` is `π = d / Σ d`: the stationary state is unique -/
+theorem C18_stationary_unique (es : List Edge) (N : Nat) (hv : Valid es N) (hc : connectedB es N = true) (hN : 2 ≤ N)
+    (x : Nat → Rat) (hfix : ∀ j, j < N → sumTo N (fun i => x i * kEntry es N i j) = x j) (hsum : sumTo N x = 1) :
+    ∀ i, i < N → x i = piEntry es N i := by
+  apply C18_repaired_solution_is_pi es N hv hc hN x
+  refine ⟨fun i hi => ?_, hsum⟩
+  rw [sub_eq_zero, ← hfix i (by omega)]
+  unfold sumTo; congr 1; apply List.map_congr_left; intro j _; ring
+
+/-! ## one density step: mass, linearity, sign -/
+
+/-- `s @ K` has the total of `s` for EVERY vector `s` (signed, any total), on every hypergraph without isolated nodes -/
+theorem C18_density_mass_signed (es : List Edge) (N : Nat) (hv : Valid es N)
+    (hni : ∀ i, i < N → ∃ e ∈ es, i ∈ e ∧ 2 ≤ e.length) (v : List Rat) (hl : v.length = N) :
+    (densityNext es N v).length = N ∧ (densityNext es N v).sum = v.sum := by
+  refine ⟨densityNext_length es N v, densityNext_sum es N (fun i hi => ?_) v hl⟩
+  rw [rowSum_eq_deg2 es N hv i]; exact (deg2_pos_iff es i).mpr (hni i hi)
+
+/-- `s ↦ s @ K` is linear: `(a v + b w) @ K = a (v @ K) + b (w @ K)` -/
+theorem C18_density_linear (es : List Edge) (N : Nat) (a b : Rat) (v w : List Rat) (hl : v.length = w.length) :
+    densityNext es N (List.zipWith (fun x y => a * x + b * y) v w)
+      = List.zipWith (fun x y => a * x + b * y) (densityNext es N v) (densityNext es N w) :=
+  densityNext_linear es N a b v w hl
+
+/-- a non-negative vector stays non-negative -/
+theorem C18_density_nonneg (es : List Edge) (N : Nat) (v : List Rat) (hv : ∀ x ∈ v, 0 ≤ x) :
+    ∀ y ∈ densityNext es N v, 0 ≤ y :=
+  densityNext_nonneg es N v hv
+
+/-! ## `t` steps at once -/
+
+/-- `K ** t`: `K⁰ = I`, `K^(t+1) = K @ K^t` entrywise; every power is row-stochastic with non-negative entries -/
+theorem C18_power_stochastic (es : List Edge) (N : Nat) (hv : Valid es N)
+    (hni : ∀ i, i < N → ∃ e ∈ es, i ∈ e ∧ 2 ≤ e.length) (t i : Nat) (hi : i < N) :
+    sumTo N (kPow es N t i) = 1
+    ∧ (∀ j, j < N → 0 ≤ kPow es N t i j)
+    ∧ (∀ j, j < N → kPow es N 0 i j = if i = j then 1 else 0)
+    ∧ (∀ j, j < N → kPow es N (t + 1) i j = sumTo N (fun k => kEntry es N i k * kPow es N t k j)) := by
+  have hr : ∀ i, i < N → 0 < rowSum es N i := fun i hi => by
+    rw [rowSum_eq_deg2 es N hv i]; exact (deg2_pos_iff es i).mpr (hni i hi)
+  refine ⟨?_, fun j hj => kPow_nonneg es N t i j hi hj, fun j hj => kPow_zero es N i j hi hj, fun j hj => ?_⟩
+  · rw [sumTo_eq]; exact kPow_row_sum es N hr t i hi
+  · rw [sumTo_eq]; exact kPow_succ es N t i j hi hj
+
+/-- the `k`-th vector returned by `random_walk_density` is the start times `K ** k` (no hypothesis on the hypergraph
+or on the signs / total of `s`: an algebraic identity of the loop) -/
+theorem C18_density_power (es : List Edge) (N t : Nat) (s : List Rat) (hl : s.length = N) (k : Nat) (hk : k ≤ t) :
+    (densityList es N t s)[k]? = some (densityAt es N k s)
+    ∧ ∀ j, j < N → (densityAt es N k s)[j]? = some (sumTo N (fun i => vecOf s i * kPow es N k i j)) := by
+  refine ⟨densityList_getElem es N t s hl k hk, fun j hj => ?_⟩
+  simp [densityAt_eq, hj]
+
+/-- started in the stationary state the density never moves -/
+theorem C18_stationary_density_constant (es : List Edge) (N : Nat) (hv : Valid es N) (hc : connectedB es N = true)
+    (hN : 2 ≤ N) (p : List Rat) (hp : stationary es N = some p) (t : Nat) :
+    ∀ w ∈ densityList es N t p, w = p := by
+  have : p = (List.range N).map (piEntry es N) := by
+    unfold stationary at hp; rw [if_pos hc] at hp; exact (Option.some.inj hp).symm
+  subst this
+  exact densityList_const es N _ (piList_fixed es N (fun i hi => rowSum_pos es N hv hc hN i hi)) t
+
+/-! ## `random_walk_density` with its two assertions -/
+
+/-- the executable test is `np.isclose(x, 1)`: `|x − 1| ≤ 1e-8 + 1e-5` -/
+theorem C18_isclose (x : Rat) : closeToOne x = true ↔ |x - 1| ≤ 1001 / 100000000 := by
+  unfold closeToOne
+  rw [abs_le]
+  simp only [Bool.and_eq_true, decide_eq_true_eq]
+  constructor
+  · rintro ⟨a, b⟩; exact ⟨by linarith, a⟩
+  · rintro ⟨a, b⟩; exact ⟨b, by linarith⟩
+
+/-- the routine answers exactly when the total of `s` is `isclose` to one and the hypergraph is connected; then
+EVERY returned vector has the total of `s` (so it passes the same test), whatever the signs of `s` -/
+theorem C18_density_accepts (es : List Edge) (N : Nat) (hv : Valid es N) (hN : 2 ≤ N) (s : List Rat)
+    (hl : s.length = N) (t : Nat) :
+    (randomWalkDensity es N s t = none ↔ (¬ |s.sum - 1| ≤ 1001 / 100000000) ∨ connectedB es N = false)
+    ∧ ∀ L, randomWalkDensity es N s t = some L →
+        L = densityList es N t s ∧ ∀ w ∈ L, w.length = N ∧ w.sum = s.sum ∧ closeToOne w.sum = true := by
+  unfold randomWalkDensity
+  cases hcl : closeToOne s.sum with
+  | false =>
+    have : ¬ |s.sum - 1| ≤ 1001 / 100000000 := by rw [← C18_isclose, hcl]; simp
+    simp [this]
+  | true =>
+    have hcl' := (C18_isclose s.sum).mp hcl
+    cases hc : connectedB es N with
+    | false => simp
+    | true =>
+      simp only [if_true, hcl', not_true_eq_false, Bool.true_eq_false, or_self, iff_false, Option.some.injEq,
+        reduceCtorEq, not_false_eq_true, true_and]
+      intro L hL
+      subst hL
+      refine ⟨rfl, fun w hw => ?_⟩
+      obtain ⟨h1, h2⟩ := densityList_mass es N (fun i hi => rowSum_pos es N hv hc hN i hi) t s hl w hw
+      exact ⟨h1, h2, by rw [h2]; exact hcl⟩
+
+/-! ## sampled walks as a function of the uniform draws -/
+
+/-- `np.random.choice(N, p=p)` (inverse cdf of ONE uniform draw `u ∈ [0, 1)`) on a vector with total one returns an
+index below `N` whose probability is positive: the index with `cdf[idx-1] ≤ u < cdf[idx]` -/
+theorem C18_choice_support (p : Nat → Rat) (N : Nat) (hp : sumTo N p = 1) (u : Rat) (h0 : 0 ≤ u) (h1 : u < 1) :
+    chooseIdx p N u < N ∧ 0 < p (chooseIdx p N u)
+    ∧ sumTo (chooseIdx p N u) p ≤ u ∧ u < sumTo (chooseIdx p N u + 1) p :=
+  chooseIdx_spec p N u h0 (by rw [hp]; exact h1)
+
+/-- for EVERY list of uniform draws in `[0, 1)` and every start below `N` the sampled walk has `time + 1` nodes
+below `N`, starts at `s`, only steps between distinct nodes sharing a hyperedge, and is accepted by the
+recorded-choice model `walk` (whose hypothesis "the choice has positive probability" is therefore always met) -/
+theorem C18_walk_every_draw (es : List Edge) (N : Nat) (hv : Valid es N) (hc : connectedB es N = true) (hN : 2 ≤ N)
+    (us : List Rat) (hu : ∀ u ∈ us, 0 ≤ u ∧ u < 1) (s : Nat) (hs : s < N) :
+    (walkU es N s us).head? = some s ∧ (walkU es N s us).length = us.length + 1
+    ∧ (∀ v ∈ walkU es N s us, v < N)
+    ∧ Adj (fun a b => a ≠ b ∧ ∃ e ∈ es, a ∈ e ∧ b ∈ e) (walkU es N s us)
+    ∧ walk es N s (walkU es N s us).tail = some (walkU es N s us) := by
+  induction us generalizing s with
+  | nil => exact ⟨rfl, rfl, by simp [walkU, hs], adj_single _ _, by simp [walkU, walk]⟩
+  | cons u us ih =>
+    have hu0 := hu u List.mem_cons_self
+    obtain ⟨c1, c2, _, _⟩ := C18_choice_support (kEntry es N s) N (C18_row_stochastic es N hv hc hN s hs).1 u hu0.1 hu0.2
+    obtain ⟨i1, i2, i3, i4, i5⟩ := ih (fun x hx => hu x (List.mem_cons_of_mem _ hx)) _ c1
+    obtain ⟨rest, hrest⟩ : ∃ rest, walkU es N (chooseIdx (kEntry es N s) N u) us = chooseIdx (kEntry es N s) N u :: rest := by
+      cases us <;> simp [walkU]
+    have hsup := (C18_walk_support es N hv hc hN s _ hs).mp c2
+    refine ⟨rfl, by simp [walkU, i2], ?_, ?_, ?_⟩
+    · intro v hv'
+      simp only [walkU, List.mem_cons] at hv'
+      rcases hv' with rfl | hv'
+      · exact hs
+      · exact i3 v hv'
+    · show Adj _ (s :: walkU es N (chooseIdx (kEntry es N s) N u) us)
+      rw [hrest] at i4 ⊢
+      exact adj_cons _ _ _ _ hsup i4
+    · show walk es N s (walkU es N (chooseIdx (kEntry es N s) N u) us) = some (s :: walkU es N (chooseIdx (kEntry es N s) N u) us)
+      rw [hrest] at i5 ⊢
+      simp only [List.tail_cons] at i5
+      unfold walk
+      have hvc : validChoice es N s (chooseIdx (kEntry es N s) N u) = true := by
+        simp [validChoice, c1, c2]
+      rw [if_pos hvc, i5]; rfl
+
+/-! ## contagion: the infected SET, the draw list, the horizon -/
+
+/-- `numberInf[t]` is the size of the infected set after sweep `t` -/
+theorem C18_counts_are_set_sizes (es : List Edge) (nodes keys : List Nat) (r : Rates) (f : Nat → Rat) (I0 : Nat → Bool)
+    (T : Nat) :
+    counts es nodes keys r f I0 T = (keys.filter I0 :: infectedSets es nodes keys r f I0 T).map List.length := by
+  simp [counts, infectedSets, infected, List.map_map, Function.comp_def]
+
+/-- recovery rate `0`: the infected SET only grows from sweep to sweep (not only its size), for every draw stream
+and all infection rates -/
+theorem C18_mu0_set_grows (es : List Edge) (nodes keys : List Nat) (hnd : nodes.Nodup) (r : Rates) (f : Nat → Rat)
+    (hf : UnitDraws f) (hmu : r.mu = 0) (I0 : Nat → Bool) (T : Nat) :
+    Adj (fun a b => ∀ v, v ∈ a → v ∈ b) (keys.filter I0 :: infectedSets es nodes keys r f I0 T) := by
+  have h := run_set_grows es nodes keys hnd r f hf hmu (T - 1) I0 0
+  exact adj_map (fun a b : List Nat => ∀ v, v ∈ a → v ∈ b) (fun s : (Nat → Bool) × Nat => keys.filter s.1) _
+    (fun t a b ha hb v hv => by
+      rw [List.mem_filter] at hv ⊢
+      exact ⟨hv.1, h t a b ha hb v hv.2⟩)
+
+/-- both infection rates `0`: the infected set only shrinks -/
+theorem C18_beta0_set_shrinks (es : List Edge) (nodes keys : List Nat) (hnd : nodes.Nodup) (r : Rates) (f : Nat → Rat)
+    (hf : UnitDraws f) (hb : r.beta = 0) (hbd : r.betaD = 0) (I0 : Nat → Bool) (T : Nat) :
+    Adj (fun a b => ∀ v, v ∈ b → v ∈ a) (keys.filter I0 :: infectedSets es nodes keys r f I0 T) := by
+  have h := run_set_shrinks es nodes keys hnd r f hf hb hbd (T - 1) I0 0
+  exact adj_map (fun a b : List Nat => ∀ v, v ∈ b → v ∈ a) (fun s : (Nat → Bool) × Nat => keys.filter s.1) _
+    (fun t a b ha hb v hv => by
+      rw [List.mem_filter] at hv ⊢
+      exact ⟨hv.1, h t a b ha hb v hv.2⟩)
+
+/-- keys of `I_0` that are not nodes of the hypergraph are never touched: they keep their initial value in every
+state of the run -/
+theorem C18_outside_nodes_unchanged (es : List Edge) (nodes keys : List Nat) (hnd : nodes.Nodup) (r : Rates)
+    (f : Nat → Rat) (I0 : Nat → Bool) (T : Nat) :
+    ∀ s ∈ runStates es nodes keys r f (T - 1) I0 0, ∀ u, u ∉ nodes → s.1 u = I0 u :=
+  run_outside_unchanged es nodes keys hnd r f (T - 1) I0 0
+
+/-- the run is a function of the draws it consumes: two streams that agree on the first `consumed` positions give the
+same counts, fractions and number of draws (so replaying the finite recorded list, continued arbitrarily, is exact) -/
+theorem C18_draws_local (es : List Edge) (nodes keys : List Nat) (r : Rates) (f g : Nat → Rat) (I0 : Nat → Bool) (T : Nat)
+    (h : ∀ q, q < consumed es nodes keys r f I0 T → f q = g q) :
+    counts es nodes keys r g I0 T = counts es nodes keys r f I0 T
+    ∧ fractions es nodes keys r g I0 T = fractions es nodes keys r f I0 T
+    ∧ consumed es nodes keys r g I0 T = consumed es nodes keys r f I0 T :=
+  counts_congr es nodes keys r f g I0 T h
+
+/-- a longer horizon only appends: the result for `T` is the first `T` entries of the result for `T + 1` (same draws) -/
+theorem C18_horizon_prefix (es : List Edge) (nodes keys : List Nat) (r : Rates) (f : Nat → Rat) (I0 : Nat → Bool)
+    (T : Nat) (hT : 1 ≤ T) :
+    counts es nodes keys r f I0 T = (counts es nodes keys r f I0 (T + 1)).take T
+    ∧ fractions es nodes keys r f I0 T = (fractions es nodes keys r f I0 (T + 1)).take T := by
+  have h := counts_prefix es nodes keys r f I0 T hT
+  refine ⟨h, ?_⟩
+  unfold fractions; rw [h, List.map_take]
+
+/-- extinction is absorbing (`while Infected > 0`): after a `0` every later entry is `0` -/
+theorem C18_absorbing (es : List Edge) (nodes keys : List Nat) (r : Rates) (f : Nat → Rat) (I0 : Nat → Bool) (T t : Nat)
+    (h : (counts es nodes keys r f I0 T)[t]? = some 0) :
+    ∀ t', t ≤ t' → t' < T → (counts es nodes keys r f I0 T)[t']? = some 0 :=
+  counts_absorbing es nodes keys r f I0 T t h
+
+/-- all three rates `0`: nothing ever changes -/
+theorem C18_all_rates_zero (es : List Edge) (nodes keys : List Nat) (hnd : nodes.Nodup) (r : Rates) (f : Nat → Rat)
+    (hf : UnitDraws f) (hb : r.beta = 0) (hbd : r.betaD = 0) (hmu : r.mu = 0) (I0 : Nat → Bool) (T : Nat) :
+    Adj (fun a b => a = b) (fractions es nodes keys r f I0 T) := fun t a b ha hb' =>
+  le_antisymm (C18_mu0_monotone es nodes keys hnd r f hf hmu I0 T t a b ha hb')
+    (C18_beta0_monotone es nodes keys hnd r f hf hb hbd I0 T t a b ha hb')
+
+/-- `β = β_D = 0`, `μ = 1`, every key of `I_0` a node: everybody recovers in the first sweep -/
+theorem C18_extinction (es : List Edge) (nodes keys : List Nat) (hnd : nodes.Nodup) (hk : ∀ k ∈ keys, k ∈ nodes)
+    (r : Rates) (f : Nat → Rat) (hf : UnitDraws f) (hb : r.beta = 0) (hbd : r.betaD = 0) (hmu : r.mu = 1)
+    (I0 : Nat → Bool) (T : Nat) :
+    counts es nodes keys r f I0 T = infected keys I0 :: List.replicate (T - 1) 0 := by
+  rw [(C18_deterministic es nodes keys hnd r f hf (Or.inl hb) (Or.inl hbd) (Or.inr hmu)).2]
+  congr 1
+  have hs : ∀ J, infected keys (spread es nodes r J) = 0 := by
+    intro J
+    unfold infected
+    rw [List.length_eq_zero_iff, List.filter_eq_nil_iff]
+    intro k hk'
+    have hkn : k ∈ nodes := hk k hk'
+    unfold spread
+    cases hJ : J k <;> simp [hkn, hb, hbd, hmu, hJ]
+  generalize T - 1 = n
+  induction n generalizing I0 with
+  | zero => rfl
+  | succ n ih =>
+    unfold spreadCounts
+    split
+    · rfl
+    · rw [hs, ih]; rfl
+
+/-! ## one sweep: what a single rate forces, and no infection without a source -/
+
+/-- no infection without a source: a susceptible node with no infected pairwise neighbour and no 3-hyperedge whose two
+other members are infected is still susceptible after the sweep - for all rates and all draws (no hypothesis on `f`) -/
+theorem C18_no_spontaneous_infection (es : List Edge) (nodes : List Nat) (hnd : nodes.Nodup) (r : Rates) (f : Nat → Rat)
+    (I : Nat → Bool) (p v : Nat) (hI : I v = false) (hp : (pairNbrs es nodes v).any I = false)
+    (ht : (triplets es v).any (triHit I v) = false) : (step es nodes r f I p).1 v = false := by
+  by_cases hv : v ∈ nodes
+  · exact step_value es nodes hnd r f I p v false hv (fun q => newVal_no_source es nodes r f I v q hI hp ht)
+  · rw [(step_spec es nodes hnd r f I p).1 v hv]; exact hI
+
+/-- `β = 1` alone (any `β_D`, `μ`, any draws in `[0,1)`): a susceptible node with an infected pairwise neighbour is infected
+after the sweep -/
+theorem C18_beta1_certain (es : List Edge) (nodes : List Nat) (hnd : nodes.Nodup) (r : Rates) (f : Nat → Rat)
+    (hf : UnitDraws f) (hb : r.beta = 1) (I : Nat → Bool) (p v : Nat) (hv : v ∈ nodes) (hI : I v = false)
+    (hp : (pairNbrs es nodes v).any I = true) : (step es nodes r f I p).1 v = true :=
+  step_value es nodes hnd r f I p v true hv (fun q => newVal_beta1 es nodes r f hf hb I v q hI hp)
+
+/-- `β_D = 1` alone: a susceptible node in a 3-hyperedge whose two other members are infected is infected after the sweep -/
+theorem C18_betaD1_certain (es : List Edge) (nodes : List Nat) (hnd : nodes.Nodup) (r : Rates) (f : Nat → Rat)
+    (hf : UnitDraws f) (hbd : r.betaD = 1) (I : Nat → Bool) (p v : Nat) (hv : v ∈ nodes) (hI : I v = false)
+    (ht : (triplets es v).any (triHit I v) = true) : (step es nodes r f I p).1 v = true :=
+  step_value es nodes hnd r f I p v true hv (fun q => newVal_betaD1 es nodes r f hf hbd I v q hI ht)
+
+/-- `μ = 1` alone: every infected node is susceptible after the sweep (it may be re-infected only in a later sweep) -/
+theorem C18_mu1_certain (es : List Edge) (nodes : List Nat) (hnd : nodes.Nodup) (r : Rates) (f : Nat → Rat)
+    (hf : UnitDraws f) (hmu : r.mu = 1) (I : Nat → Bool) (p v : Nat) (hv : v ∈ nodes) (hI : I v = true) :
+    (step es nodes r f I p).1 v = false :=
+  step_value es nodes hnd r f I p v false hv (fun q => newVal_mu1 es nodes r f hf hmu I v q hI)
+
+/-! ## the new model parts depend on the content only, too -/
+
+/-- `C18_listing_irrelevant` for the definitions of the extension round: matrix powers, `t`-step densities,
+`random_walk_density` with its assertions, walks driven by uniform draws, the infected sets -/
+theorem C18_listing_irrelevant_ext (es es' : List Edge) (h : es.Perm es') :
+    (∀ N t, kPowMat es N t = kPowMat es' N t) ∧ (∀ N t v, densityAt es N t v = densityAt es' N t v)
+    ∧ (∀ N s t, randomWalkDensity es N s t = randomWalkDensity es' N s t)
+    ∧ (∀ N s us, walkU es N s us = walkU es' N s us)
+    ∧ (∀ nodes keys r f I0 T, infectedSets es nodes keys r f I0 T = infectedSets es' nodes keys r f I0 T) := by
+  have hk := kEntry_perm h
+  have hp : ∀ N t, kPowMat es N t = kPowMat es' N t := by
+    intro N t
+    induction t with
+    | zero => rfl
+    | succ t ih => simp only [kPowMat, kMat, hk, ih]
+  refine ⟨hp, fun N t v => by simp only [densityAt, hp],
+    fun N s t => by simp only [randomWalkDensity, connectedB_perm h, densityList_perm h], ?_,
+    fun nodes keys r f I0 T => by simp only [infectedSets, runStates_perm h]⟩
+  intro N s us
+  induction us generalizing s with
+  | nil => rfl
+  | cons u us ih => simp only [walkU, hk, ih]
+
+/-! ## non-vacuity of the extension round -/
+
+/-- a pair and an isolated node `2`; `[1]` is a hyperedge with one member -/
+private def exI : List Edge := [[0, 1], [1]]
+private theorem exIValid : Valid exI 3 := by unfold Valid exI; decide
+example : rowSum exI 3 2 = 0 := (C18_zero_row_iff exI 3 exIValid 2).mpr (by decide)
+example : sumTo 3 (kEntry exI 3 1) = 1 :=
+  (C18_row_stochastic_general exI 3 exIValid 1 ⟨[0, 1], by decide, by decide, by decide⟩).1
+example : transitionMatrix exI 3 = none := (C18_isolated_node exI 3 exIValid (by decide) 2 (by decide) (by decide)).2.1
+example : rowsPositive [] 1 = false := (C18_single_node [] (by intro e he; cases he)).2.2
+example : piEntry exE 4 2 * kEntry exE 4 2 3 = piEntry exE 4 3 * kEntry exE 4 3 2 :=
+  (C18_detailed_balance exE 4 exValid exConn (by decide) 2 3 (by decide) (by decide)).1
+example (x : Nat → Rat) (h1 : ∀ j, j < 4 → sumTo 4 (fun i => x i * kEntry exE 4 i j) = x j) (h2 : sumTo 4 x = 1) :
+    x 2 = piEntry exE 4 2 := C18_stationary_unique exE 4 exValid exConn (by decide) x h1 h2 2 (by decide)
+/-- disconnected (two pairs), signed, total 3: the mass identity needs neither connectivity nor a probability vector -/
+example : (densityNext [[0, 1], [2, 3]] 4 [5, -2, 0, 0]).sum = 3 := by
+  rw [(C18_density_mass_signed [[0, 1], [2, 3]] 4 (by unfold Valid; decide) (by decide) [5, -2, 0, 0] rfl).2]; norm_num
+example : densityNext exE 4 (List.zipWith (fun x y => 2 * x + -3 * y) [1, 0, 0, 0] [0, 0, 1, 0])
+    = List.zipWith (fun x y => 2 * x + -3 * y) (densityNext exE 4 [1, 0, 0, 0]) (densityNext exE 4 [0, 0, 1, 0]) :=
+  C18_density_linear exE 4 2 (-3) _ _ rfl
+example : ∀ y ∈ densityNext exE 4 [1 / 2, 0, 1 / 2, 0], 0 ≤ y :=
+  C18_density_nonneg exE 4 _ (by intro x hx; simp at hx; rcases hx with rfl | rfl | rfl | rfl <;> norm_num)
+private theorem exNI : ∀ i, i < 4 → ∃ e ∈ exE, i ∈ e ∧ 2 ≤ e.length := by decide
+example : sumTo 4 (kPow exE 4 3 2) = 1 := (C18_power_stochastic exE 4 exValid exNI 3 2 (by decide)).1
+example : (densityList exE 4 3 [3 / 2, -1, 0, 1 / 2])[2]? = some (densityAt exE 4 2 [3 / 2, -1, 0, 1 / 2]) :=
+  (C18_density_power exE 4 3 _ rfl 2 (by decide)).1
+example : ∃ p, stationary exE 4 = some p ∧ ∀ w ∈ densityList exE 4 5 p, w = p :=
+  ⟨(List.range 4).map (piEntry exE 4), by simp [stationary, exConn],
+    C18_stationary_density_constant exE 4 exValid exConn (by decide) _ (by simp [stationary, exConn]) 5⟩
+example : closeToOne (1 + 1 / 200000) = true := by rw [C18_isclose]; norm_num [abs_le]
+example : closeToOne (1 + 1 / 50000) = false := by
+  rw [Bool.eq_false_iff, Ne, C18_isclose]; norm_num [abs_le]
+example : ∃ L, randomWalkDensity exE 4 [3 / 2, -1, 0, 1 / 2] 2 = some L := by
+  have h : closeToOne ([3 / 2, -1, 0, 1 / 2] : List Rat).sum = true := by rw [C18_isclose]; norm_num [abs_le]
+  unfold randomWalkDensity
+  rw [if_pos h, if_pos exConn]; exact ⟨_, rfl⟩
+example : randomWalkDensity exE 4 [1, 1, 0, 0] 2 = none := by
+  rw [(C18_density_accepts exE 4 exValid (by decide) [1, 1, 0, 0] rfl 2).1]; left; norm_num [abs_le]
+example : chooseIdx (fun i => if i = 1 then 1 / 4 else if i = 3 then 3 / 4 else 0) 4 (1 / 2) = 3 := by
+  simp [chooseIdx, chooseFrom]; norm_num
+example : (walkU exE 4 0 [1 / 4, 3 / 4, 9 / 10, 0]).length = 5 :=
+  (C18_walk_every_draw exE 4 exValid exConn (by decide) _ (by
+    intro u hu; simp at hu; rcases hu with rfl | rfl | rfl | rfl <;> norm_num) 0 (by decide)).2.1
+
+example : counts exC exNodes exNodes ⟨1 / 3, 1 / 4, 1 / 5⟩ exF exI0 4
+    = (exNodes.filter exI0 :: infectedSets exC exNodes exNodes ⟨1 / 3, 1 / 4, 1 / 5⟩ exF exI0 4).map List.length :=
+  C18_counts_are_set_sizes _ _ _ _ _ _ _
+example : Adj (fun a b => ∀ v, v ∈ a → v ∈ b)
+    (exNodes.filter exI0 :: infectedSets exC exNodes exNodes ⟨1 / 3, 1 / 4, 0⟩ exF exI0 6) :=
+  C18_mu0_set_grows exC exNodes exNodes (by decide) _ exF exUnit rfl exI0 6
+example : Adj (fun a b => ∀ v, v ∈ b → v ∈ a)
+    (exNodes.filter exI0 :: infectedSets exC exNodes exNodes ⟨0, 0, 3 / 4⟩ exF exI0 6) :=
+  C18_beta0_set_shrinks exC exNodes exNodes (by decide) _ exF exUnit rfl rfl exI0 6
+/-- key `7` is not a node: it stays infected whatever happens -/
+example : ∀ s ∈ runStates exC exNodes [0, 1, 7] ⟨1 / 3, 1 / 4, 1⟩ exF (5 - 1) (fun v => v == 7 || v == 0) 0, s.1 7 = true :=
+  fun s hs => C18_outside_nodes_unchanged exC exNodes [0, 1, 7] (by decide) _ exF _ 5 s hs 7 (by decide)
+/-- a stream that differs from `exF` only beyond the consumed prefix gives the same run -/
+example (g : Nat → Rat) (h : ∀ q, q < consumed exC exNodes exNodes ⟨1, 1 / 4, 1 / 5⟩ exF exI0 4 → exF q = g q) :
+    counts exC exNodes exNodes ⟨1, 1 / 4, 1 / 5⟩ g exI0 4 = counts exC exNodes exNodes ⟨1, 1 / 4, 1 / 5⟩ exF exI0 4 :=
+  (C18_draws_local exC exNodes exNodes _ exF g exI0 4 h).1
+example : counts exC exNodes exNodes ⟨1, 1, 0⟩ exF exI0 4 = [1, 2, 3, 4] := by
+  rw [(C18_horizon_prefix exC exNodes exNodes ⟨1, 1, 0⟩ exF exI0 4 (by decide)).1,
+    (C18_deterministic exC exNodes exNodes (by decide) ⟨1, 1, 0⟩ exF exUnit (Or.inr rfl) (Or.inr rfl) (Or.inl rfl)).2]
+  decide
+example : counts exC exNodes exNodes ⟨0, 0, 1⟩ exF exI0 4 = [1, 0, 0, 0] :=
+  C18_extinction exC exNodes exNodes (by decide) (fun _ h => h) _ exF exUnit rfl rfl rfl exI0 4
+example : (counts exC exNodes exNodes ⟨0, 0, 1⟩ exF exI0 4)[3]? = some 0 :=
+  C18_absorbing exC exNodes exNodes _ exF exI0 4 1
+    (by rw [C18_extinction exC exNodes exNodes (by decide) (fun _ h => h) _ exF exUnit rfl rfl rfl exI0 4]; rfl)
+    3 (by decide) (by decide)
+example : Adj (fun a b => a = b) (fractions exC exNodes exNodes ⟨0, 0, 0⟩ exF exI0 6) :=
+  C18_all_rates_zero exC exNodes exNodes (by decide) _ exF exUnit rfl rfl rfl exI0 6
+example : walkU [[2, 3], [0, 1, 2]] 4 0 [1 / 4, 3 / 4] = walkU exE 4 0 [1 / 4, 3 / 4] :=
+  ((C18_listing_irrelevant_ext exE [[2, 3], [0, 1, 2]] (by decide)).2.2.2.1 4 0 _).symm
+/-- node `3` has no pairwise neighbour and its triangle `{0, 2, 3}` has only one infected member -/
+example : (step exC exNodes ⟨1 / 3, 1 / 4, 1 / 5⟩ exF exI0 0).1 3 = false :=
+  C18_no_spontaneous_infection exC exNodes (by decide) _ exF exI0 0 3 (by decide) (by decide) (by decide)
+example : (step exC exNodes ⟨1, 1 / 4, 1 / 5⟩ exF exI0 0).1 1 = true :=
+  C18_beta1_certain exC exNodes (by decide) _ exF exUnit rfl exI0 0 1 (by decide) (by decide) (by decide)
+example : (step exC exNodes ⟨1 / 3, 1, 1 / 5⟩ exF (fun v => v == 0 || v == 2) 0).1 3 = true :=
+  C18_betaD1_certain exC exNodes (by decide) _ exF exUnit rfl _ 0 3 (by decide) (by decide) (by decide)
+example : (step exC exNodes ⟨1 / 3, 1 / 4, 1⟩ exF exI0 0).1 0 = false :=
+  C18_mu1_certain exC exNodes (by decide) _ exF exUnit rfl exI0 0 0 (by decide) (by decide)
